@@ -82,6 +82,20 @@ def check_tree(lab, mon, ast, rng, styles):
             mon.check("v2.print_roundtrip", ok,
                       lambda: dict(case=case, printed=printed, how=how, want=want, got=got2, error=err))
         mon.seen("style", "%s/%s" % (style, at))
+    # parentheses need no blanks around them: "not(a or b)", "(a)or(b)", "a and(b)"
+    if nontrivial:
+        import re as _re
+        base = T.render_v2(ast, rng, rng.choice(["full", "redundant", "min"]), rng.choice([True, False]))
+        tight = _re.sub(r"\s*\)\s*", ")", _re.sub(r"\s*\(\s*", "(", base))
+        if tight != base and "(" in tight:
+            case = {"kind": "tree", "ast": ast, "text": tight}
+            mon.case(case, True)
+            try:
+                got, e = lab.table(tight)
+                mon.check("v2.meaning", got == want, lambda: dict(case=case, want=want, got=got, parsed=repr(e), rendering="no blanks around parentheses"))
+            except Exception as ex:
+                mon.check("v2.meaning", False, dict(case=case, error=repr(ex), rendering="no blanks around parentheses"))
+            mon.seen("style", "tight_parentheses")
     # the tags may be handed over as ANY iterable (evaluate() documents Iterable[str]): one-shot iterators included
     if nontrivial and rng.random() < 0.5:
         text = T.render_v2(ast, rng, "min", False)
